@@ -478,9 +478,42 @@ pub fn check_selection(
                     Some(id.bytes),
                 );
             }
+            // Reference selection (documented algorithm): the group must EQUAL it, role by role.
+            // `uris()` lists the invalidating choices first (IFT's, then IFTX's), then the non-invalidating ones.
+            // Only tie accepted: several fully invalidating candidates with equal intersection AND equal entry
+            // order (one per table) -- the specification leaves that choice open.
             let got: BTreeSet<String> = uris.iter().cloned().collect();
-            let exact_ok = if sel.full_best.len() > 1 { got.len() == 1 && got.is_subset(&sel.full_best) } else { got == sel.exact };
-            ctx.count(if exact_ok { "selection:exact-set-as-documented" } else { "selection:exact-set-differs(not-a-violation)" }, 1);
+            let exact_ok = if sel.full_best.len() > 1 {
+                got.len() == 1 && got.is_subset(&sel.full_best)
+            } else if !sel.full_best.is_empty() {
+                got == sel.exact
+            } else {
+                let k = sel.ref_invalidating.len();
+                let glyph_ref: BTreeSet<&String> = sel.exact.iter().filter(|u| !sel.ref_invalidating.contains(u)).collect();
+                uris.len() >= k
+                    && uris[..k] == sel.ref_invalidating[..]
+                    && uris[k..].iter().collect::<BTreeSet<_>>() == glyph_ref
+                    && uris.len() - k == glyph_ref.len()
+            };
+            if sel.iftx_fallback {
+                ctx.count("selection:iftx-best-shares-ift-uri:fallback-to-next-best", 1);
+            }
+            if sel.iftx_shadowed {
+                ctx.count("selection:iftx-best-shares-ift-uri:no-other-candidate", 1);
+            }
+            if exact_ok {
+                ctx.count("selection:exact-set-as-documented", 1);
+            } else {
+                ctx.violation(
+                    &format!("select:group-differs-from-reference:{:016x}", id.digest(d)),
+                    json!({"what": "selected group is not the one the documented selection algorithm yields (IFT: best partially invalidating; IFTX: best partially invalidating among URIs not already selected; then non-invalidating)",
+                           "uris": uris, "reference_invalidating": sel.ref_invalidating, "reference_set": sel.exact,
+                           "iftx_fallback_case": sel.iftx_fallback,
+                           "candidates": cands.iter().map(|c| format!("t{} e{} {:?} {:?} {:?}", c.table, c.idx, c.fmt, c.uri, c.info)).collect::<Vec<_>>(),
+                           "case": id.detail(d)}),
+                    Some(id.bytes),
+                );
+            }
             Some((uris.clone(), sel))
         }
     }
